@@ -67,12 +67,14 @@ def _sr(c):
 
 
 @contract("construct:MdxHeaderConstruct.parse_stream", abstract=True, assumed=True,
-          note="parsing the 64-byte MDX header advances the cursor by 64 and yields the u64 `eof` field (layout checked by layout:alcohol.mdx:MdxHeaderConstruct)")
+          note="parsing the 64-byte MDX header advances the cursor by 64 and yields the u64le `eof` field stored at header offset 48 "
+               "(layout checked by layout:alcohol.mdx:MdxHeaderConstruct)")
 def _mh(c):
     c.param("stream", ROF)
     c.returns(("rec", "MdxHeader", {"eof": "int"}))
     c.raises("ConstructError")
-    c.ensures("stream.cur == old(stream.cur) + 64 and result.eof >= 0")
+    c.define("u64le", ["b", "o"], "b[o] + 256 * b[o + 1] + 65536 * b[o + 2] + 16777216 * b[o + 3] + 4294967296 * (b[o + 4] + 256 * b[o + 5] + 65536 * b[o + 6] + 16777216 * b[o + 7])")
+    c.ensures("stream.cur == old(stream.cur) + 64 and result.eof == u64le(stream.content, old(stream.cur) + 48)")
     c.modifies("stream.cur")
 
 
@@ -88,7 +90,8 @@ def _mdx(c):
     c.abstract_calls = {"MdxHeaderConstruct.parse_stream": "construct:MdxHeaderConstruct.parse_stream",
                         "MdxHeaderConstruct.sizeof": "construct:MdxHeaderConstruct.sizeof"}
     c.raises("ConstructError")
-    # the wrapped image is the bytes [64, eof) of the MDX file
+    c.define("u64le", ["b", "o"], "b[o] + 256 * b[o + 1] + 65536 * b[o + 2] + 16777216 * b[o + 3] + 4294967296 * (b[o + 4] + 256 * b[o + 5] + 65536 * b[o + 6] + 16777216 * b[o + 7])")
+    # the wrapped image is the bytes [64, eof) of the MDX file, eof read from the header found at the parent's cursor
     c.ensures("isinstance(result, StreamOffset) and result.offset == 64 and result.substream is parent_stream and result.position == 0", "window-after-the-header")
-    c.ensures("exists(0, 1, lambda k: True) and result.end_of_file + 64 == mdx_eof(result)", "length-is-eof-minus-header")
-    c.define("mdx_eof", ["r"], "r.end_of_file + 64")
+    c.ensures("result.end_of_file == u64le(parent_stream.content, old(parent_stream.cur) + 48) - 64", "length-is-stored-eof-minus-header")
+    c.modifies("parent_stream.cur")
